@@ -158,8 +158,24 @@ def _tup(x):
     return x
 
 
+def _ref_prefix(a, b):
+    """both texts are read behind one prefix that defines the groups they only refer to (C03 excepts such references)"""
+    need, maxnum = [], 0
+    for t in (b, a):
+        for m in re.finditer(r"\(\?\((\w+)\)|\(\?P=(\w+)\)", t):
+            nm = m.group(1) or m.group(2)
+            if nm.isdigit():
+                maxnum = max(maxnum, int(nm))
+            elif ("(?P<%s>" % nm) not in b and nm not in need:
+                need.append(nm)
+        for m in re.finditer(r"(?<!\\)(?:\\\\)*\\([1-9]\d?)", t):
+            maxnum = max(maxnum, int(m.group(1)))
+    return "(z)" * maxnum + "".join("(?P<%s>z)" % nm for nm in need)
+
+
 def SAME_TREE(a, b):
-    ra, rb = _tree(a), _tree(b)
+    pre_ = _ref_prefix(a, b)
+    ra, rb = _tree(pre_ + a), _tree(pre_ + b)
     if "error" in rb:
         raise ValueError(f"reference text does not parse: {b!r}: {rb['error']}")
     if "error" in ra:
